@@ -4,6 +4,16 @@ usage: agent_prompt.py C09 [variant-hint]"""
 import json, sys
 pid = sys.argv[1]
 hint = sys.argv[2] if len(sys.argv) > 2 else ''
+# a hint of the form "<suffix> AVOID" lists what the earlier seeds for this property changed, so that a new round looks elsewhere
+if hint.endswith('AVOID'):
+    import glob, os
+    used = []
+    for d in sorted(set(glob.glob('/verif/seeded/%s-*' % pid))):
+        try:
+            used.append('(%d) %s' % (len(used) + 1, json.load(open(os.path.join(d, 'meta.json')))['summary'].replace('\n', ' ')[:260]))
+        except Exception:
+            pass
+    hint = hint[:-5].strip() + ' Earlier rounds already produced the following changes for this property; do NOT repeat any of them or a close variant, attack different code paths, clauses and mechanisms: ' + ' '.join(dict.fromkeys(used))
 for l in open('/verif/properties.jsonl'):
     p = json.loads(l)
     if p['id'] == pid:
